@@ -87,11 +87,19 @@ func (a *acc) add(b acc) {
 // lift applies f to every combination of the arguments' possible values.
 func lift(args []acc, f func(v []string) acc) acc {
 	var out acc
-	for _, a := range args {
+	args = append([]acc{}, args...)
+	for i, a := range args {
 		if a.skip {
 			out.skip = true
 		}
-		if a.free || a.anyErr || len(a.vals) == 0 {
+		if a.anyErr {
+			// whichever marker the argument produced, it is an ordinary
+			// string for the helper that consumes it
+			a.anyErr = false
+			a.add(acc{vals: errorMarkers})
+			args[i] = a
+		}
+		if a.free || len(a.vals) == 0 {
 			out.free = true
 		}
 	}
